@@ -5,6 +5,7 @@ import (
 	"go/types"
 	"sort"
 	"strings"
+	"time"
 )
 
 // Value is an abstract value: *Bits, *ErrVal, NilVal, *StrVal, *Struct, *Array, *Slice, *Ptr, *Iface, *Opaque, Tuple.
@@ -131,6 +132,9 @@ func isErrorType(t types.Type) bool {
 func (in *Interp) Zero(t types.Type) Value {
 	if isErrorType(t) {
 		return &ErrVal{False}
+	}
+	if IsTimeType(t) {
+		return in.TimeValue(in.D.Const(time.Time{}.UnixNano(), 64, true), t)
 	}
 	switch u := t.Underlying().(type) {
 	case *types.Basic:
@@ -435,4 +439,34 @@ func (in *Interp) Show(v Value) string {
 		return x.Kind + "(…)"
 	}
 	return fmt.Sprintf("%T", v)
+}
+
+// time.Time (and named types whose underlying type is time.Time's struct) is modelled as one signed 64-bit count of
+// nanoseconds since the Unix epoch, UTC: a Struct with the single pseudo-field "ns". Before/After/Equal are signed
+// comparisons, Add/Sub two's-complement addition and subtraction (time.Time.Sub saturates outside ±292 years, which
+// the clients exclude through their input domain). Location and the monotonic reading are not modelled.
+
+// IsTimeType reports whether t is time.Time or a named type defined as time.Time.
+func IsTimeType(t types.Type) bool {
+	st, ok := t.Underlying().(*types.Struct)
+	if !ok || st.NumFields() != 3 {
+		return false
+	}
+	f := st.Field(0)
+	return f.Pkg() != nil && f.Pkg().Path() == "time" && f.Name() == "wall" && st.Field(1).Name() == "ext" && st.Field(2).Name() == "loc"
+}
+
+// TimeValue wraps a nanosecond count as an abstract time.Time of type t.
+func (in *Interp) TimeValue(ns *Bits, t types.Type) *Struct {
+	return &Struct{T: t, F: map[string]*Cell{"ns": {V: ns}}, Order: []string{"ns"}}
+}
+
+// TimeNS returns the nanosecond count of an abstract time value.
+func TimeNS(v Value) (*Bits, bool) {
+	st, ok := v.(*Struct)
+	if !ok || len(st.F) != 1 || st.F["ns"] == nil {
+		return nil, false
+	}
+	b, ok := st.F["ns"].V.(*Bits)
+	return b, ok
 }
